@@ -1531,3 +1531,217 @@ func rangeValueStmt(f *an.Fn, v *types.Var) (*ast.RangeStmt, bool) {
 	})
 	return out, out != nil
 }
+
+func init() {
+	old := All["C07"].Run
+	All["C07"].Run = func(c *an.Ctx) {
+		old(c)
+		c07scaleCoversEveryValue(c)
+	}
+	All["C07"].Rules += " R14"
+	addLevel("C07", "The common scale by which the chunk-meta time ranges are divided is computed over every value that is divided, the first (absolute) one included.")
+}
+
+// c07scaleCoversEveryValue — C07.R14.  EncodeInt64sWithScale writes v0/s and the deltas/s; the
+// decoder multiplies by s again, so s must divide v0 and every delta.  findScaleIdx takes the
+// minimum of scale(x) over the values; the loop has to start at the first value and must not
+// be left early (an index loop from 1 or a break loses a value and the division truncates).
+func c07scaleCoversEveryValue(c *an.Ctx) {
+	const K = "lib/codec"
+	r := c.Rule("C07.R14", "K-LOOPSELECT", K+":findScaleIdx — scale() is taken of every value from the first one on")
+	f := fn(r, K+":findScaleIdx")
+	sc := obj(r, K+":scale")
+	if f == nil || sc == nil {
+		return
+	}
+	calls := f.Find(an.MCall("scale(…)", sc))
+	if !f.LoopVisitsAll(r, calls, "every value enters the minimum (no early exit)") {
+		return
+	}
+	for _, s := range calls.List {
+		var loop ast.Node
+		for p := f.Parent(s.Node); p != nil; p = f.Parent(p) {
+			if _, ok := p.(*ast.RangeStmt); ok {
+				loop = p
+				break
+			}
+			if _, ok := p.(*ast.ForStmt); ok {
+				loop = p
+				break
+			}
+		}
+		fs, ok := loop.(*ast.ForStmt)
+		if !ok {
+			continue
+		}
+		zero := false
+		if as, ok := fs.Init.(*ast.AssignStmt); ok && len(as.Rhs) == 1 {
+			if tv, ok := f.Info.Types[as.Rhs[0]]; ok && tv.Value != nil && tv.Value.String() == "0" {
+				zero = true
+			}
+		}
+		if !zero {
+			r.Fail(f.Name+": loop starts after the first value", c.P.Pos(fs.Pos()), "the loop that computes the common scale does not start at index 0: the first value is divided by a scale it was never tested against and reads back truncated")
+		}
+	}
+}
+
+func init() {
+	old := All["C07"].Run
+	All["C07"].Run = func(c *an.Ctx) {
+		old(c)
+		c07snappyInPlace(c)
+	}
+	All["C07"].Rules += " R15"
+	addLevel("C07", "A WAL record's body is the compressed batch: the buffer handed to snappy.Encode always has the worst-case size, so the encoder writes in place and the bytes behind the header are the ones whose length the header states.")
+}
+
+// c07snappyInPlace — C07.R15.  snappy.Encode(dst, src) writes into dst only if
+// len(dst) >= MaxEncodedLen(len(src)); otherwise it allocates, whatever the size of the result.
+// writeBinary writes header+body straight from the pooled buffer, so either the buffer is sized to
+// the worst case without any clamp, or the result of Encode is copied behind the header unconditionally.
+func c07snappyInPlace(c *an.Ctx) {
+	const E = "engine"
+	r := c.Rule("C07.R15", "K-PROVENANCE", E+":(*WAL).writeBinary — the buffer given to snappy.Encode is sized by snappy.MaxEncodedLen of the same source, unclamped")
+	f := fn(r, E+":WAL.writeBinary")
+	if f == nil {
+		return
+	}
+	isPkgCall := func(ce *ast.CallExpr, pkg, name string) bool {
+		sel, ok := ce.Fun.(*ast.SelectorExpr)
+		if !ok || sel.Sel.Name != name {
+			return false
+		}
+		o, ok := f.Info.Uses[sel.Sel].(*types.Func)
+		return ok && o.Pkg() != nil && strings.HasSuffix(o.Pkg().Path(), pkg)
+	}
+	rootOf := func(e ast.Expr) types.Object {
+		for {
+			switch x := ast.Unparen(e).(type) {
+			case *ast.SliceExpr:
+				e = x.X
+			case *ast.IndexExpr:
+				e = x.X
+			case *ast.Ident:
+				return f.Info.ObjectOf(x)
+			default:
+				return nil
+			}
+		}
+	}
+	// assignments per local
+	defs := map[types.Object][]ast.Expr{}
+	ast.Inspect(f.Body, func(n ast.Node) bool {
+		as, ok := n.(*ast.AssignStmt)
+		if !ok {
+			return true
+		}
+		for i, l := range as.Lhs {
+			id, ok := l.(*ast.Ident)
+			if !ok {
+				continue
+			}
+			o := f.Info.ObjectOf(id)
+			if o == nil {
+				continue
+			}
+			var rhs ast.Expr
+			if len(as.Rhs) == len(as.Lhs) {
+				rhs = as.Rhs[i]
+			} else if len(as.Rhs) == 1 {
+				rhs = as.Rhs[0]
+			}
+			defs[o] = append(defs[o], rhs)
+		}
+		return true
+	})
+	var worstCase func(e ast.Expr, depth int) bool
+	worstCase = func(e ast.Expr, depth int) bool {
+		found := false
+		ast.Inspect(e, func(n ast.Node) bool {
+			switch x := n.(type) {
+			case *ast.CallExpr:
+				if isPkgCall(x, "snappy", "MaxEncodedLen") {
+					found = true
+				}
+			case *ast.Ident:
+				o := f.Info.ObjectOf(x)
+				if d := defs[o]; len(d) == 1 && d[0] != nil && depth < 4 {
+					if worstCase(d[0], depth+1) {
+						found = true
+					}
+				}
+			}
+			return true
+		})
+		return found
+	}
+	n := 0
+	ast.Inspect(f.Body, func(m ast.Node) bool {
+		ce, ok := m.(*ast.CallExpr)
+		if !ok || len(ce.Args) != 2 || !isPkgCall(ce, "snappy", "Encode") {
+			return true
+		}
+		n++
+		buf := rootOf(ce.Args[0])
+		if buf == nil {
+			return true // a fresh or nil destination: Encode allocates and the caller must use the result
+		}
+		sized := false
+		for _, d := range defs[buf] {
+			rc, ok := d.(*ast.CallExpr)
+			if !ok || !isPkgCall(rc, "bufferpool", "Resize") || len(rc.Args) != 2 {
+				continue
+			}
+			if worstCase(rc.Args[1], 0) {
+				sized = true
+			} else {
+				sized = false
+				break
+			}
+		}
+		if sized {
+			return true
+		}
+		// fallback: the result is copied behind the header unconditionally
+		var res types.Object
+		if as, ok := f.Parent(ce).(*ast.AssignStmt); ok && len(as.Lhs) == 1 {
+			if id, ok := as.Lhs[0].(*ast.Ident); ok {
+				res = f.Info.ObjectOf(id)
+			}
+		}
+		copied := false
+		if res != nil {
+			ast.Inspect(f.Body, func(k ast.Node) bool {
+				cc, ok := k.(*ast.CallExpr)
+				if !ok {
+					return true
+				}
+				id, ok := cc.Fun.(*ast.Ident)
+				if !ok || (id.Name != "append" && id.Name != "copy") || len(cc.Args) < 2 {
+					return true
+				}
+				if rootOf(cc.Args[len(cc.Args)-1]) != res {
+					return true
+				}
+				cond := false
+				for p := f.Parent(cc); p != nil; p = f.Parent(p) {
+					switch p.(type) {
+					case *ast.IfStmt, *ast.SwitchStmt, *ast.ForStmt, *ast.RangeStmt:
+						cond = true
+					}
+				}
+				if !cond {
+					copied = true
+				}
+				return true
+			})
+		}
+		if !copied {
+			r.Fail(f.Name+": snappy.Encode may not write in place", c.P.Pos(ce.Pos()), "the buffer handed to snappy.Encode is not sized by snappy.MaxEncodedLen of the source on every path (clamped or recomputed), and the result is not copied behind the header unconditionally: snappy allocates whenever the destination is shorter than the worst case, and the record is then written with a body that is not the compressed batch")
+		}
+		return true
+	})
+	r.AddSites(n)
+	r.Floor(1, "snappy.Encode calls in writeBinary")
+}
